@@ -13,7 +13,11 @@ func zzReport(maxReports int) (rtcp.Packet, int) {
 		rr.Reports = append(rr.Reports, rtcp.ReceptionReport{SSRC: zzU32("rssrc"), FractionLost: zzU8("fl"),
 			TotalLost: zzU32("tl") & 0xFFFFFF, LastSequenceNumber: zzU32("lsn"), Jitter: zzU32("jit")})
 	}
-	return rr, 8 + 24*n
+	// profile-specific extensions (RFC 3550 6.4.2): 0, 4 or 8 extra bytes
+	if ne := zzConcretize(zzIntIn("nprofext", 0, zzParam("NPE", 2))); ne > 0 {
+		rr.ProfileExtensions = zzBytes("profext", 4*ne, 4*ne)
+	}
+	return rr, 8 + 24*n + len(rr.ProfileExtensions)
 }
 
 // C18 (RTCP, client and server session): explicit length check against
